@@ -1157,7 +1157,7 @@ PROPS["C20"] = dict(
          "pyxis and every output file is compared by content hash; non-trivial = accepted and the two texts differ",
     level_text="Proved in Coq (Properties/C20.v), each as 'the model computes the same result': explicit address = natural address, size attribute = natural size, index = natural slot, enum value = implicit value. "
                "Gap <-> address: the placement fold ends at the same offset with region lists that differ only in how the unnamed gap region was created, and the naming pass maps both to the same regions (C20_gap_is_address, C20_naming_ignores_gap_spelling). "
-               "Number spelling (lexer) and reordering (resolution part: C09 theorem; emitter sorting not formalised) have no theorem here (partial); they, and all the others again on the real code, are decided by the monitor: original and rewritten description built by the real pyxis, outputs byte-identical.",
+               "C20_reorder_same_output: reordering the definitions inside the modules of a collision_free, clean input gives the same verdict class and, when accepted, exactly the same files, under any two schedules. Number spelling is the lexer's business (the AST carries the value; C18). All rewrites, again on the real code, are decided by the monitor: original and rewritten description built by the real pyxis, outputs byte-identical.",
     level_note="Trusted: Coq kernel; model validated by this run's correspondence (verdict, file set, registry on both sides); byte identity is observed on the implementation (content hash of every output file).",
 )
 
